@@ -664,6 +664,18 @@ func (x *vc) evalCall(env *cenv, e *cexpr) Val {
 		s := x.eval(env, e.args[0])
 		x.needRuneCount()
 		return Val{T: app("rune_count", s.T), Typ: intT}
+	case "runeStart": // runeStart(s, p): a rune of s starts at byte offset p
+		s := x.eval(env, e.args[0])
+		p := x.eval(env, e.args[1])
+		x.needRuneCount()
+		x.needRunesBefore()
+		return Val{T: app("rune_start", s.T, p.T), Typ: boolT}
+	case "runesBefore": // runesBefore(s, p): number of runes that start before byte offset p (p on a rune boundary)
+		s := x.eval(env, e.args[0])
+		p := x.eval(env, e.args[1])
+		x.needRuneCount()
+		x.needRunesBefore()
+		return Val{T: app("runes_before", s.T, p.T), Typ: intT}
 	case "typeis": // typeis(x, "*Error")
 		v := x.eval(env, e.args[0])
 		if e.args[1].op != "str" {
